@@ -31,7 +31,14 @@ pub fn cmap_text(pairs: &[(u16, &str)], two_byte: bool) -> Vec<u8> {
         }
         s.push_str(&format!("<{}> <{}>\n", c, u));
     }
-    s.push_str("endbfchar\nendcmap\nCMapName currentdict /CMap defineresource pop\nend\nend\n");
+    s.push_str("endbfchar\n");
+    // both range forms, so that faults on their hexadecimal tokens reach the range code
+    if two_byte {
+        s.push_str("2 beginbfrange\n<0028> <002A> <0061>\n<0030> <0031> [<0041> <0042>]\nendbfrange\n");
+    } else {
+        s.push_str("2 beginbfrange\n<28> <2A> <0061>\n<30> <31> [<0041> <0042>]\nendbfrange\n");
+    }
+    s.push_str("endcmap\nCMapName currentdict /CMap defineresource pop\nend\nend\n");
     s.into_bytes()
 }
 
